@@ -33,7 +33,8 @@ PROPS = {
     'C09': {
         'units': ['unify'],
         'functions': [],
-        'oracles': {'*': 'c09_anon'},
+        'oracles': {'#anon_sound': 'c09_mgu', '*': 'c09_anon'},
+        'bounded': [('c09_mgu', 'pairs containing `$_` against a reference unifier that treats `$_` as a wildcard: success exactly when a unifier exists, the other positions identical when resolved, no extra bindings (23 terms x 23 terms x 7 prior sets, those with `$_`)')],
         'not_covered': ['programs using $_ in heads and bodies: the solver is outside reach; the clause covers every unify call, hence every position, by modularity'],
     },
     'C13': {
@@ -99,13 +100,16 @@ PROPS['C10'] = {
     'functions': ['unifiable.rs::Unifiable::recreate_variables', 'unifiable.rs::recreate_vars_terms', 'unifiable.rs::recreate_vars_goals',
                   'goal.rs::Goal::recreate_variables', 'operator.rs::Operator::recreate_variables',
                   'built_in_predicates.rs::BuiltInPredicate::recreate_variables', 'built_in_predicates.rs::BuiltInPredicate::new',
-                  'rule.rs::Rule::recreate_variables', 's_linked_list.rs::make_linked_list'],
+                  'rule.rs::Rule::recreate_variables', 's_linked_list.rs::make_linked_list',
+                  'knowledge_base.rs::get_rule', 's_complex.rs::make_query', 's_complex.rs::make_complex'],
     'kani': {'quick': ['c10_counter_contract'], 'thorough': []},
-    'oracles': {'*': 'c10_rename'},
+    'oracles': {'knowledge_base.rs::get_rule': 'c10_clause', 's_complex.rs::make_query': 'c10_clause', 's_complex.rs::make_complex': 'c10_clause',
+                'rule.rs::Rule::recreate_variables': 'c10_clause', '*': 'c10_rename'},
     'not_covered': [
         "'different names get different ids' and 'no fresh variable is in use elsewhere': ids come from next_id(); its counter contract (successive, non-zero, increasing) is proved by Kani, the composition with the map invariant is not machine-checked",
         'the fallback_id restore in the clause loop of next_solution (solver, outside reach)',
-        'get_rule / make_query: HashMap<String, Vec<Rule>> lookup by &str and the static-mut reset are outside the Verus unit; make_query\'s reset is covered by C22',
+        'get_rule: which vector the HashMap returns for a &str key is vstd\'s uninterpreted maps_borrowed_key_to_value (no String/str key axiom in vstd); the contract says the result is the renamed index-th rule of that vector',
+        'make_query: the static-mut reset in start_query is covered by C22 (Kani); parse_query\'s call in unit parsers does not establish the wf_seq precondition (consistent list counts of the parsed terms)',
         'termination of the recursive renaming (exec_allows_no_decreases_clause)',
     ],
 }
